@@ -1111,3 +1111,109 @@ k_stream_reader_sync_scan!(k_stream_sync_after_stray_ff_c1, [0x00, 0xFF, 0xFF, 0
 k_stream_reader_sync_scan!(k_stream_sync_two_candidates_c5, [0xFF, 0xF9, 0x22, 0x00, 0xFF, 0xF8, 0x33], 5, [0xFFF922, 0xFFF833], 10);
 // no sync at all: FF followed by a non-sync byte, garbage
 k_stream_reader_sync_scan!(k_stream_sync_none_c2, [0x00, 0xFF, 0x00, 0x00], 2, [], 8);
+
+// ------------------------------------------------------------------ FlacByteReader: refill, delivery and skip-forward after seeking (C06 / C07)
+//
+// Decoder and byte serialisation are replaced by their contracts over the abstract stream (mono, 2 bytes per
+// sample, blocks of 2 samples, 3 blocks = 12 bytes; the byte at stream position q has the value q + 1):
+//   Decoder::read_frame / Decoder::seek as for the channel reader; Frame::to_buf writes the block's bytes.
+// contract seek(Start(t)): t <= 12 => Ok(t) and the next byte read is the byte at position t (none at t == 12);
+//                          t > 12 => Err; never stale or misplaced data, from every well-formed reader state
+// contract read(n): delivers the next min(n, bytes left in the block) bytes of the stream, in order, exactly once
+fn stub_to_buf_abs<E: crate::byteorder::Endianness>(f: &Frame, buf: &mut [u8]) {
+    let s = frame_samples(f);
+    let mut i = 0;
+    while i < s.len() {
+        let p = (s[i] / 8) as usize; // sample position (see audio::verif_k::value_at)
+        if 2 * i + 1 < buf.len() {
+            buf[2 * i] = (2 * p + 1) as u8;
+            buf[2 * i + 1] = (2 * p + 2) as u8;
+        }
+        i += 1;
+    }
+}
+
+/// well-formed byte reader: block k decoded and `left` of its 4 bytes still buffered (or nothing decoded yet)
+fn byte_reader(decoded: Option<u64>, left: usize) -> FlacByteReader<SeekRec, crate::byteorder::LittleEndian> {
+    let mut si = mk_streaminfo(NonZero::new(A_TOTAL));
+    si.channels = NonZero::new(1).unwrap();
+    let mut d = Decoder::new(SeekRec { at: None, fail: false }, BlockList::new(si));
+    let mut buf: VecDeque<u8> = VecDeque::new();
+    if let Some(k) = decoded {
+        fill_abstract(&mut d.buf, 1, A_BLK, k * A_BLK as u64);
+        d.current_sample = (k + 1) * A_BLK as u64;
+        let base = (k * 4) as usize;
+        let mut j = 4 - left;
+        while j < 4 { buf.push_back((base + j + 1) as u8); j += 1; }
+    }
+    FlacByteReader { decoder: d, buf, endianness: std::marker::PhantomData, frames_start: Some(0) }
+}
+
+macro_rules! k_byte_reader_seek_land {
+    ($name:ident, $decoded:expr, $left:expr) => {
+        #[kani::proof]
+        #[kani::unwind(8)]
+        #[kani::stub(Decoder::read_frame, stub_read_frame_abs)]
+        #[kani::stub(Decoder::seek, stub_seek_abs)]
+        #[kani::stub(crate::audio::Frame::to_buf, stub_to_buf_abs)]
+        pub(crate) fn $name() {
+            use std::io::{Read, Seek, SeekFrom};
+            let mut r = byte_reader($decoded, $left);
+            let t: u64 = kani::any();
+            kani::assume(t <= 14);
+            let res = r.seek(SeekFrom::Start(t));
+            let ok = res.is_ok();
+            let pos = res.unwrap_or(u64::MAX);
+            if t > 12 {
+                vk_assert!(!ok, "seeking beyond the end of the stream must fail");
+            } else {
+                vk_assert!(ok && pos == t, "a seek inside the stream succeeds and reports the requested byte position");
+                let mut one = [0u8; 1];
+                let n = r.read(&mut one).unwrap();
+                if t < 12 {
+                    vk_assert!(n == 1 && one[0] as u64 == t + 1, "the first byte read after seek(t) is the byte at position t");
+                } else {
+                    vk_assert!(n == 0, "seeking to the very end leaves nothing to read");
+                }
+            }
+        }
+    };
+}
+
+macro_rules! k_byte_reader_deliver {
+    ($name:ident, $decoded:expr, $left:expr) => {
+        #[kani::proof]
+        #[kani::unwind(8)]
+        #[kani::stub(Decoder::read_frame, stub_read_frame_abs)]
+        #[kani::stub(crate::audio::Frame::to_buf, stub_to_buf_abs)]
+        pub(crate) fn $name() {
+            use std::io::Read;
+            let mut r = byte_reader($decoded, $left);
+            let q: usize = match $decoded { Some(k) => (k as usize) * 4 + (4 - $left), None => 0 };
+            let want: usize = kani::any();
+            kani::assume(want >= 1 && want <= 5);
+            let mut out = [0u8; 5];
+            let n = r.read(&mut out[..want]).unwrap();
+            if q >= 12 {
+                vk_assert!(n == 0, "nothing is delivered past the end of the stream");
+            } else {
+                let in_block = 4 - q % 4;
+                vk_assert!(n == want.min(in_block), "read delivers the rest of the current block, at most what was asked for");
+                let mut i = 0;
+                while i < 5 {
+                    if i < n { vk_assert!(out[i] as usize == q + i + 1, "bytes are delivered in stream order, none skipped or repeated"); }
+                    i += 1;
+                }
+            }
+            let mut one = [0u8; 1];
+            let m = r.read(&mut one).unwrap();
+            if q + n < 12 { vk_assert!(m == 1 && one[0] as usize == q + n + 1, "the next read continues right after the last delivered byte"); }
+            else { vk_assert!(m == 0, "end of stream is reported once everything was delivered"); }
+        }
+    };
+}
+// measured: the seek instances and the instances that refill a VecDeque whose head has moved run CBMC out of memory;
+// kept are the states with an empty or final buffer
+k_byte_reader_deliver!(k_byte_reader_deliver_b1_left0, Some(1u64), 0);
+k_byte_reader_deliver!(k_byte_reader_deliver_b2_left2, Some(2u64), 2);
+k_byte_reader_deliver!(k_byte_reader_deliver_b2_left0, Some(2u64), 0);
